@@ -19,7 +19,6 @@ import (
 	"io"
 	"os"
 	"path/filepath"
-	"sort"
 	"strings"
 	"testing"
 
@@ -682,31 +681,47 @@ func (c c39case) String() string {
 }
 
 type c39twins struct {
+	s                *c39scn
 	l, r, lv, rv     *vLedger
 	dl, dr, dlv, drv []vKV
 	rootAfter        common.Uint256
 }
 
 func c39makeTwins(s *c39scn) *c39twins {
-	t := &c39twins{}
+	t := &c39twins{s: s}
 	t.l = s.open()
-	t.r = s.open()
-	c39must(t.r.Reopen(), "twin reopen")
 	t.lv = s.open()
 	c39must(s.follow(t.lv), "twin follow (live)")
-	t.rv = s.open()
-	c39must(t.rv.Reopen(), "twin reopen")
-	c39must(s.follow(t.rv), "twin follow (reopened)")
-	t.dl, t.dr, t.dlv, t.drv = t.l.Dump(), t.r.Dump(), t.lv.Dump(), t.rv.Dump()
+	t.dl, t.dlv = t.l.Dump(), t.lv.Dump()
 	var err error
 	t.rootAfter, err = t.lv.ls.GetStateMerkleRoot(s.target.Header.Height)
 	c39must(err, "twin state root")
 	return t
 }
 
+// restarted builds the twins of the restart variant (on first use)
+func (t *c39twins) restarted() {
+	if t.r != nil {
+		return
+	}
+	s := t.s
+	t.r = s.open()
+	c39must(t.r.Reopen(), "twin reopen")
+	t.rv = s.open()
+	c39must(t.rv.Reopen(), "twin reopen")
+	c39must(s.follow(t.rv), "twin follow (reopened)")
+	t.dr, t.drv = t.r.Dump(), t.rv.Dump()
+	// determinism self-check of the fixture: live and restarted twins agree on disk
+	if d := append(vDiff(t.dl, t.dr), vDiff(t.dlv, t.drv)...); len(d) != 0 {
+		panic("c39 fixture: twin ledgers differ before any mutant:" + vHexKeys(d))
+	}
+}
+
 func (t *c39twins) drop() {
 	for _, l := range []*vLedger{t.l, t.r, t.lv, t.rv} {
-		c39drop(l)
+		if l != nil {
+			c39drop(l)
+		}
 	}
 }
 
@@ -759,8 +774,6 @@ func TestVerif_C39(t *testing.T) {
 		}
 		tw := c39makeTwins(s)
 		env.s, env.tw = s, tw
-		// determinism self-check of the fixture: live and restarted twins agree on disk
-		r.Need(len(vDiff(tw.dl, tw.dr)) == 0 && len(vDiff(tw.dlv, tw.drv)) == 0, "twin ledgers differ before any mutant: %s", vHexKeys(append(vDiff(tw.dl, tw.dr), vDiff(tw.dlv, tw.drv)...)))
 		ctx := &c39ctx{t: s.target, prev: s.prev, older: s.older, genesis: tw.l.genesis.Hash(), extra: s.ch.extra}
 		if s.pre == "sibling-header" {
 			ctx.sibling = s.ch.s1
@@ -1022,6 +1035,7 @@ func (e *c39env) group(g []*c39mut, cs c39case) bool {
 	p := e.probe(g)
 	twv, twd := tw.lv, tw.dlv
 	if cs.Reopen {
+		tw.restarted()
 		if err := l.Reopen(); err != nil {
 			return report("reopen-fails", "%v: ledger does not reopen after the rejected mutant: %v", cs, err)
 		}
@@ -1049,4 +1063,3 @@ func (e *c39env) group(g []*c39mut, cs c39case) bool {
 	return true
 }
 
-var _ = sort.Strings
